@@ -252,6 +252,7 @@ class OptionInterpreter:
             (int, str),
             default=True,
             deprecated_values={str: ('1.1.0', 'use an integer, not a string')},
+            validator=lambda x: 'must be an integer, not a boolean' if isinstance(x, bool) else None,
             convertor=int,
         ),
         KwargInfo('min', (int, NoneType)),
